@@ -211,9 +211,11 @@ def run_check(pid: str, fn: Callable[[Ctx], None], argv: Optional[List[str]] = N
         # an exception raised inside pfhedge itself on an input the specification accepts is a violation,
         # an exception of the harness is a machinery failure
         frames = traceback.extract_tb(e.__traceback__)
-        last_verif = max([i for i, f in enumerate(frames) if str(VERIF) + "/" in f.filename] or [-1])
+        # attributed to the library when pfhedge code is on the stack below the harness: either pfhedge itself raised, or it
+        # called a user-supplied double (model, primary, optimiser) with arguments the double cannot accept
+        first_verif = min([i for i, f in enumerate(frames) if str(VERIF) + "/" in f.filename] or [len(frames)])
         repo = os.environ.get("VERIF_REPO", "/repo").rstrip("/") + "/pfhedge/"
-        if any(repo in f.filename for f in frames[last_verif + 1:]):
+        if any(repo in f.filename for f in frames[first_verif + 1:]):
             where = next((f"{f.filename}:{f.lineno}" for f in reversed(frames) if repo in f.filename), "?")
             ctx.violation(f"library-exception:{type(e).__name__}", f"pfhedge raised {type(e).__name__} at {where} on an input the specification accepts",
                           {"error": repr(e)[:300], "traceback": traceback.format_exc()[-1500:]})
